@@ -362,6 +362,151 @@ theorem tables_wellformed :
 /-- the renegotiation SCSV 0x00ff is not an implemented suite: it can only be configured with ForceSuites -/
 theorem scsv_not_implemented : Gen.implementedSuites.contains scsvRenegotiation = false := by decide
 
+
+/-! ### wire: what a real client sends (`c29 wire`, model `wireHello` of the fingerprint branch of clientHandshake) -/
+
+/-- Whenever a ClientHello leaves the client, it is `marshal` of the effective configuration (the configured one
+    after the `Autopopulate` rewrites), and it is a hello the client's own parser accepts: nothing between
+    `marshal` and `WriteRecord` re-encodes it. Together with `fp_hello_layout` / `fp_hello_bytes` this gives
+    the layout of the bytes in the first handshake record(s). -/
+theorem wire_sent_is_marshal (cfg : Cfg) (wexts : List WExt) (sn : Bytes) (cache : FpCache) (rsid : Nat)
+    (cc force : Bool) (rand : Bytes) (time : Nat) (hello : Bytes)
+    (h : wireHello cfg wexts sn cache rsid cc force rand time = .sent hello) :
+    ∃ cfg' rand', effectiveCfg cfg wexts sn cache rsid rand = some (cfg', rand') ∧
+      marshal cfg' force rand' time = some hello ∧ (parseClientHello hello).isSome = true := by
+  unfold wireHello wireHelloWith at h
+  split at h
+  · cases h
+  · rename_i cfg' rand' he
+    split at h
+    · cases h
+    · rename_i hb hm
+      split at h
+      · cases h
+      · rename_i m hp
+        split at h
+        · cases h
+        · cases h
+          exact ⟨cfg', rand', he, hm, by simp [hp]⟩
+
+/-- the rewrites only touch the extension list and the session id: version, random settings, cipher suites and
+    compression methods of the effective configuration are the configured ones -/
+theorem effectiveCfg_header (cfg cfg' : Cfg) (wexts : List WExt) (sn : Bytes) (cache : FpCache) (rsid : Nat)
+    (rand rand' : Bytes) (h : effectiveCfg cfg wexts sn cache rsid rand = some (cfg', rand')) :
+    cfg'.vers = cfg.vers ∧ cfg'.random = cfg.random ∧ cfg'.insertTimestamp = cfg.insertTimestamp ∧
+      cfg'.suites = cfg.suites ∧ cfg'.comp = cfg.comp := by
+  unfold effectiveCfg at h
+  dsimp only at h
+  split at h
+  · cases h
+  · split at h
+    · cases h
+    · cases h; simp
+
+/-- without `Autopopulate` entries and without a cached session the effective configuration IS the configured one
+    (whatever `Config.ServerName` and `RandomSessionID` are) and no randomness is consumed before `marshal` -/
+theorem effectiveCfg_plain (cfg : Cfg) (wexts : List WExt) (sn : Bytes) (cache : FpCache) (rsid : Nat) (rand : Bytes)
+    (hc : cfg.exts = wexts.map (·.e)) (h : ∀ w ∈ wexts, w.auto = false)
+    (hcache : cache = FpCache.none ∨ cache = FpCache.empty) :
+    effectiveCfg cfg wexts sn cache rsid rand = some (cfg, rand) := by
+  unfold effectiveCfg
+  simp only [wtcLoop_plain _ _ _ _ h]
+  rcases hcache with rfl | rfl <;> simp [ticketLoop_plain _ _ _ _ _ _ h, ← hc]
+
+/-- C29 on the wire, plain fingerprints: the ClientHello in the first handshake record(s) is exactly the
+    configured layout — configured version, random per `random_rule`, session id, suites, compression methods and
+    the extension encodings in configured order. -/
+theorem wire_as_configured (cfg : Cfg) (wexts : List WExt) (sn : Bytes) (cache : FpCache) (rsid : Nat)
+    (cc force : Bool) (rand : Bytes) (time : Nat) (hello : Bytes)
+    (hc : cfg.exts = wexts.map (·.e)) (hp : ∀ w ∈ wexts, w.auto = false)
+    (hcache : cache = FpCache.none ∨ cache = FpCache.empty)
+    (h : wireHello cfg wexts sn cache rsid cc force rand time = .sent hello) :
+    marshal cfg force rand time = some hello ∧
+      ∃ random, randomField cfg rand time = some random ∧ hello = layout cfg random := by
+  obtain ⟨cfg', rand', he, hm, _⟩ := wire_sent_is_marshal cfg wexts sn cache rsid cc force rand time hello h
+  rw [effectiveCfg_plain cfg wexts sn cache rsid rand hc hp hcache] at he
+  cases he
+  exact ⟨hm, fp_hello_bytes cfg force rand time hello hm⟩
+
+/-- conversely: a plain fingerprint for which `marshal` succeeds, inside the layout and parse-back domains, IS sent
+    (no `Config.ClientSessionCache`), and what is sent is `marshal`'s output -/
+theorem wire_plain_sends (cfg : Cfg) (wexts : List WExt) (sn : Bytes) (cache : FpCache) (rsid : Nat)
+    (force : Bool) (rand : Bytes) (time : Nat) (out random : Bytes)
+    (hc : cfg.exts = wexts.map (·.e)) (hp : ∀ w ∈ wexts, w.auto = false)
+    (hcache : cache = FpCache.none ∨ cache = FpCache.empty)
+    (hm : marshal cfg force rand time = some out)
+    (hs : cfg.suites.length < 32768) (he : (marshalExts cfg.exts).length < 65536)
+    (hr : randomField cfg rand time = some random) (hok : extsOk (baseHello cfg random) cfg.exts = true) :
+    wireHello cfg wexts sn cache rsid false force rand time = .sent out := by
+  obtain ⟨random', hr', himp⟩ := hello_parse_back cfg force rand time out hm hs he
+  rw [hr] at hr'
+  cases hr'
+  have hparse := himp hok
+  unfold wireHello wireHelloWith
+  rw [effectiveCfg_plain cfg wexts sn cache rsid rand hc hp hcache]
+  simp [hm, hparse]
+
+/-- with rewrites: still the layout of the effective configuration, whose header fields are the configured ones -/
+theorem wire_layout (cfg : Cfg) (wexts : List WExt) (sn : Bytes) (cache : FpCache) (rsid : Nat)
+    (cc force : Bool) (rand : Bytes) (time : Nat) (hello : Bytes)
+    (h : wireHello cfg wexts sn cache rsid cc force rand time = .sent hello) :
+    ∃ cfg' rand' random, effectiveCfg cfg wexts sn cache rsid rand = some (cfg', rand') ∧
+      randomField cfg' rand' time = some random ∧ hello = layout cfg' random ∧
+      cfg'.vers = cfg.vers ∧ cfg'.random = cfg.random ∧ cfg'.suites = cfg.suites ∧ cfg'.comp = cfg.comp := by
+  obtain ⟨cfg', rand', he, hm, _⟩ := wire_sent_is_marshal cfg wexts sn cache rsid cc force rand time hello h
+  obtain ⟨random, hr, hl⟩ := fp_hello_bytes cfg' force rand' time hello hm
+  obtain ⟨h1, h2, _, h4, h5⟩ := effectiveCfg_header cfg cfg' wexts sn cache rsid rand rand' he
+  exact ⟨cfg', rand', random, he, hr, hl, h1, h2, h4, h5⟩
+
+/-- **a `Config.ClientSessionCache` changes nothing on the wire of a fingerprint**: the hello parsed back from a
+    fingerprint of built-in extensions has no supported_versions, so `loadSession` (guarded, commit 87b3ec4) neither
+    announces psk modes nor finds a version-compatible session; result and bytes are those without a cache -/
+theorem wire_config_cache_irrelevant (cfg : Cfg) (wexts : List WExt) (sn : Bytes) (cache : FpCache) (rsid : Nat)
+    (cc force : Bool) (rand : Bytes) (time : Nat) :
+    wireHello cfg wexts sn cache rsid cc force rand time = wireHello cfg wexts sn cache rsid false force rand time := by
+  unfold wireHello wireHelloWith
+  simp
+
+/-- … and the fingerprint path never panics, whatever the configuration -/
+theorem wire_never_panics (cfg : Cfg) (wexts : List WExt) (sn : Bytes) (cache : FpCache) (rsid : Nat)
+    (cc force : Bool) (rand : Bytes) (time : Nat) :
+    wireHello cfg wexts sn cache rsid cc force rand time ≠ .panic := by
+  unfold wireHello wireHelloWith
+  repeat' split
+  all_goals simp_all
+
+/-- what the guard repairs: for every configuration whose hello is sent (no cache), the code WITHOUT the guard, given
+    a `Config.ClientSessionCache`, panics exactly when the parsed-back hello has no supported_versions … -/
+theorem wire_unguarded_panics_iff (cfg : Cfg) (wexts : List WExt) (sn : Bytes) (cache : FpCache) (rsid : Nat)
+    (force : Bool) (rand : Bytes) (time : Nat) (hello : Bytes) (m : ClientHello)
+    (h : wireHello cfg wexts sn cache rsid false force rand time = .sent hello)
+    (hp : parseClientHello hello = some m) :
+    wireHelloWith false cfg wexts sn cache rsid true force rand time =
+      if m.supportedVersions.isEmpty then .panic else .sent hello := by
+  obtain ⟨cfg', rand', he, hm, _⟩ := wire_sent_is_marshal cfg wexts sn cache rsid false force rand time hello h
+  unfold wireHelloWith
+  simp [he, hm, hp]
+
+/-- … which is always the case inside the parse-back domain: a fingerprint of built-in extensions never carries
+    supported_versions, so before commit 87b3ec4 EVERY plain fingerprint panicked as soon as a session cache was configured -/
+theorem wire_unguarded_panics (cfg : Cfg) (wexts : List WExt) (sn : Bytes) (cache : FpCache) (rsid : Nat)
+    (force : Bool) (rand : Bytes) (time : Nat) (out random : Bytes)
+    (hc : cfg.exts = wexts.map (·.e)) (hpl : ∀ w ∈ wexts, w.auto = false)
+    (hcache : cache = FpCache.none ∨ cache = FpCache.empty)
+    (hm : marshal cfg force rand time = some out)
+    (hs : cfg.suites.length < 32768) (he : (marshalExts cfg.exts).length < 65536)
+    (hr : randomField cfg rand time = some random) (hok : extsOk (baseHello cfg random) cfg.exts = true) :
+    wireHelloWith false cfg wexts sn cache rsid true force rand time = .panic ∧
+      wireHello cfg wexts sn cache rsid true force rand time = .sent out := by
+  have hsent := wire_plain_sends cfg wexts sn cache rsid force rand time out random hc hpl hcache hm hs he hr hok
+  obtain ⟨random', hr', himp⟩ := hello_parse_back cfg force rand time out hm hs he
+  rw [hr] at hr'
+  cases hr'
+  have hparse := himp hok
+  refine ⟨?_, (wire_config_cache_irrelevant cfg wexts sn cache rsid true force rand time).trans hsent⟩
+  rw [wire_unguarded_panics_iff cfg wexts sn cache rsid force rand time out _ hsent hparse]
+  simp [applyExts_supportedVersions, baseHello, ClientHello.empty]
+
 /-! ### the hypotheses are satisfiable -/
 
 /-- a configuration with every built-in extension type, fresh random with timestamp -/
@@ -381,5 +526,33 @@ example : extOk (.sni [[97, 46, 98]]) ClientHello.empty = true ∧ extOk (.alpn 
     extOk (.sigalgs [0x0401]) ClientHello.empty = true ∧ extOk (.ticket [1]) ClientHello.empty = true := by decide
 /-- D13: SNI with two names is outside the domain -/
 example : extOk (.sni [[97], [98]]) ClientHello.empty = false ∧ extOk (.sni []) ClientHello.empty = false := by decide
+
+/-- a plain fingerprint in browser-like (non-stock) extension order, and one with Autopopulate entries -/
+def exampleWire : List WExt :=
+  [⟨.reneg, false⟩, ⟨.sni [[97, 46, 98]], false⟩, ⟨.ems, false⟩, ⟨.sct, false⟩, ⟨.points [0], false⟩]
+def exampleWireCfg : Cfg :=
+  { vers := 0x0303, random := List.replicate 32 5, insertTimestamp := false, sessionId := [], suites := [0x002f],
+    comp := [0], exts := exampleWire.map (·.e) }
+set_option maxRecDepth 8000 in
+example : ∃ out, marshal exampleWireCfg false [] 0 = some out ∧
+    wireHello exampleWireCfg exampleWire [] .none 0 false false [] 0 = .sent out := by
+  have hm : (marshal exampleWireCfg false [] 0).isSome = true := by decide
+  obtain ⟨out, ho⟩ := Option.isSome_iff_exists.mp hm
+  exact ⟨out, ho, wire_plain_sends exampleWireCfg exampleWire [] .none 0 false [] 0 out (List.replicate 32 5)
+    (by decide) (by decide) (Or.inl rfl) ho (by decide) (by decide) (by decide) rfl⟩
+example : exampleWireCfg.exts = exampleWire.map (·.e) ∧ ∀ w ∈ exampleWire, w.auto = false := by decide
+set_option maxRecDepth 8000 in
+example : (effectiveCfg exampleWireCfg [⟨.sni [], true⟩, ⟨.ticket [], true⟩] [120] (.hit 0x0303 0x002f [7, 7]) 2 [1, 2, 3]).map
+    (fun p => (p.1.exts, p.1.sessionId, p.2)) = some ([.sni [[120]], .ticket [7, 7]], [1, 2], [3]) := by decide
+
+-- the code before commit 87b3ec4 (model variant without the guard): the same fingerprint with a
+-- `Config.ClientSessionCache` panics in `loadSession` instead of sending its hello — reverting the fix is this
+set_option maxRecDepth 8000 in
+example : ∃ out, wireHelloWith false exampleWireCfg exampleWire [] .none 0 true false [] 0 = .panic ∧
+    wireHello exampleWireCfg exampleWire [] .none 0 true false [] 0 = .sent out := by
+  have hm : (marshal exampleWireCfg false [] 0).isSome = true := by decide
+  obtain ⟨out, ho⟩ := Option.isSome_iff_exists.mp hm
+  exact ⟨out, wire_unguarded_panics exampleWireCfg exampleWire [] .none 0 false [] 0 out (List.replicate 32 5)
+    (by decide) (by decide) (Or.inl rfl) ho (by decide) (by decide) (by decide) rfl⟩
 
 end ZV.C29
